@@ -15,7 +15,7 @@ import traceback
 from .model import Model, AnalysisError, form_for
 from .report import Report
 
-CLAIMED = ['C01', 'C02', 'C04', 'C06', 'C07', 'C10', 'C11', 'C12', 'C13', 'C14', 'C15', 'C16', 'C17', 'C18', 'C21', 'C22',
+CLAIMED = ['C01', 'C02', 'C04', 'C06', 'C07', 'C10', 'C11', 'C12', 'C13', 'C14', 'C15', 'C16', 'C17', 'C18', 'C20', 'C21', 'C22',
            'C23', 'C24', 'C26', 'C27', 'C28', 'C29', 'C30', 'C31', 'C32', 'C33', 'C34', 'C35', 'C36']
 
 
